@@ -1,5 +1,5 @@
 #!/usr/bin/env python3
-"""Development helper: regenerate the per-seed tables of DESIGN.md (10.1, 10.2, 10.4) from seeded/*/meta.json."""
+"""Development helper: regenerate the per-seed tables of DESIGN.md (10.1, 10.2, 10.4, 10.6) from seeded/*/meta.json."""
 import json, pathlib, re, sys
 V = pathlib.Path(__file__).resolve().parent.parent
 HEAD = "| id | file | change (first words of the agent's note) | rules of the property's own check | other checks that fire |\n|---|---|---|---|---|\n"
@@ -23,7 +23,7 @@ def table(lo, hi):
 def main():
     s = (V / 'DESIGN.md').read_text()
     parts = s.split(HEAD)
-    ranges = [(1, 3), (4, 6), (7, 9)]
+    ranges = [(1, 3), (4, 6), (7, 9), (10, 13)]
     out = parts[0]
     for i, rest in enumerate(parts[1:]):
         # the old table ends at the first line that does not start with '|'
